@@ -213,14 +213,18 @@ class KMeans(Medoids):
             if sum_min_dists == 0.0:
                 logger.warning('There are only {} < k={} different series'.format(k_idx, self.k))
                 weights = None
+                n_cand = n_samples
             else:
                 weights = min_dists / sum_min_dists
-            idx_cand = np.random.choice(len(min_dists), size=n_samples, replace=False, p=weights)
+                # Sampling without replacement cannot return more candidates than there are
+                # series with a non-zero weight (thus that differ from the centers chosen so far)
+                n_cand = min(n_samples, np.count_nonzero(weights))
+            idx_cand = np.random.choice(len(min_dists), size=n_cand, replace=False, p=weights)
             for s_idx, idx in enumerate(idx_cand):
                 dists[s_idx, :] = np.power(fn(series, block=((idx, idx + 1), (0, len(series)), False),
                                               compact=True, **self.dists_options), 2)
                 np.minimum(dists[s_idx, :], min_dists, out=dists[s_idx, :])
-            potentials = np.sum(dists, axis=1)
+            potentials = np.sum(dists[:n_cand, :], axis=1)
             best_pot_idx = np.argmin(potentials)
             idx = idx_cand[best_pot_idx]
             min_dists[:] = dists[best_pot_idx, :]
